@@ -28,7 +28,7 @@ func init() {
 
 func runC11(c *Ctx) {
 	p := c.Progs["mod"]
-	c.Rule("C11.Y", "compatibility with the party that is not changed with this code: pages of the previous build: new message fields decide nothing, every posted message is sent, the session ID comes from the body", 3)
+	c.Rule("C11.Y", "compatibility with the party that is not changed with this code: pages of the previous build: new message fields decide nothing, every posted message is sent, the session ID comes from the body", 2)
 	ruleNewWireFieldNotDecisive(c, p, "C11.Y", "a page injected by the previous build (an open tab, a cached page) does not send that field, so it arrives as the zero value: its messages are dropped, reordered or refused", "agent/websockets.sessionMessage")
 	ruleDataLoopSendsEveryMessage(c, p, "C11.Y")
 	ruleShimSessionIDFromBodyOnly(c, p, "C11.Y")
